@@ -522,3 +522,67 @@ def obj_set(obj, node, path, pyvalue):
 def view_of(x):
     """a view rebuilt from nothing but buffer and offset"""
     return type(x)._from_buffer(x._buffer, x._offset)
+
+
+def ref_slots(spec, value, prefix=None, out=None):
+    """paths to every position typed Ref / UnionRef (null or not), not through the root"""
+    if out is None:
+        out = []
+    prefix = prefix or []
+    k = spec["k"]
+    if k == "struct":
+        for fn, ft in spec["fields"]:
+            p = prefix + [["f", fn]]
+            if ft["k"] in ("ref", "unionref"):
+                out.append((p, ft))
+            ref_slots(ft, value[fn], p, out)
+    elif k == "array":
+        for idx, v in zip(tg.indices(value["shape"]), value["flat"]):
+            p = prefix + [["i", list(idx)]]
+            if spec["item"]["k"] in ("ref", "unionref"):
+                out.append((p, spec["item"]))
+            ref_slots(spec["item"], v, p, out)
+    elif k == "ref":
+        if value is not None:
+            ref_slots(spec["to"], value, prefix + [["d"]], out)
+    elif k == "unionref":
+        if value is not None:
+            ref_slots(spec["members"][value[0]], value[1], prefix + [["d"]], out)
+    return out
+
+
+def map_scalars(spec, value, fn, strings=False):
+    """copy of `value` with every scalar (and optionally string) leaf v replaced by fn(leafspec, v); structure kept"""
+    k = spec["k"]
+    if k == "scalar":
+        return fn(spec, value)
+    if k == "string":
+        return fn(spec, value) if strings else value
+    if k == "struct":
+        return {f: map_scalars(t, value[f], fn, strings) for f, t in spec["fields"]}
+    if k == "array":
+        return {"shape": list(value["shape"]), "flat": [map_scalars(spec["item"], v, fn, strings) for v in value["flat"]]}
+    if k == "ref":
+        return None if value is None else map_scalars(spec["to"], value, fn, strings)
+    if k == "unionref":
+        return None if value is None else [value[0], map_scalars(spec["members"][value[0]], value[1], fn, strings)]
+    raise ValueError(k)
+
+
+def node_at(node, value, path):
+    """Node reached by a model path (union members resolved through the model value)"""
+    spec = node.spec
+    for st in path:
+        if st[0] == "f":
+            node = _kid(node, st)
+            value = value[st[1]]
+        elif st[0] == "i":
+            value = value["flat"][tg.flat_index(st[1], value["shape"])]
+            node = node.kids[0]
+        else:
+            if node.spec["k"] == "ref":
+                node = node.kids[0]
+            else:
+                node = node.kids[value[0]]
+                value = value[1]
+    return node, value
